@@ -32,18 +32,21 @@ S.install_fake_click()
 PROP_ID = "C12"
 DESIGN_REF = "6/C12"
 LEVEL_TEXT = (
-    "Lean theorems for all inputs: toposort_flatten / sort_classes / the whole DependenciesResolver run are functions of the "
-    "dependency relation (no dict/set order), cluster designation is a function of the SCC partition, sort_types is "
-    "order-free exactly when priorities are distinct (only bytes/object tie, checked on the live table), sequence numbers / "
-    "occurrence bounds / choice grouping are invariant under injective relabelling of id(), CLI source order is listing-order "
-    "free, CLI-flag / config-file / API configurations coincide outside one proved corner; the model is tied to /repo by "
-    "differential runs with the set iteration order forced (ShuffledSet, forced vertex order), under 3 extra PYTHONHASHSEED "
-    "worker processes, and by end-to-end generations (3 routes x set orders x hash seeds) whose layout the model predicts"
+    "Lean theorems for all inputs: the exact path-based SCC algorithm of utils/graphs.py raises nothing and yields the "
+    "mutual-reachability classes for every iteration order (scc_spec), hence group_by_strong_components / "
+    "group_by_namespace_clusters and the whole package layout are independent of set(edges)' order "
+    "(layout_clusters_order_independent); toposort_flatten / sort_classes / the whole DependenciesResolver run are functions "
+    "of the dependency relation; sort_types is order-free exactly when priorities are distinct (only bytes/object tie, "
+    "checked on the live table); sequence numbers / occurrence bounds / choice grouping are invariant under injective "
+    "relabelling of id(); CLI source order is listing-order free; CLI-flag / config-file / API configurations coincide "
+    "outside one proved corner. The model is tied to /repo by differential runs with the set iteration order forced "
+    "(ShuffledSet, forced vertex order), under 3 extra PYTHONHASHSEED worker processes, and by end-to-end generations "
+    "(3 routes x set orders x hash seeds) whose layout the model predicts"
 )
 LEVEL_NOTE = (
-    "permutation-invariance of the modelled order-sensitive steps is proved for all inputs; "
-    "SCC order-independence, the template layer, click's parser and ruff are covered by correspondence/"
-    "end-to-end runs only (stand-ins), so the verdict for the whole property is partial"
+    "proved: order/id independence of every modelled set- or id()-dependent step incl. SCC correctness; not proved: "
+    "the template layer, click's parser, ruff and the XSD->class mapping (stand-ins / end-to-end byte comparison only), "
+    "so the verdict for the whole property is partial; five genuine violations are listed as known findings"
 )
 TRUSTED = [
     "harness/shims/toposort is this framework's re-implementation of toposort_flatten (the real package is not installed); the model follows the shim",
